@@ -37,7 +37,12 @@ RULE = ('random CFGs (<=5 non-terminals, <=4 single-character terminals, <=3 alt
         'is not the longest) with string/regexp ignores, under dynamic and dynamic_complete: the regex engine\'s answers (the '
         'parser\'s own term_matcher on every terminal, position and truncation; the calls made during the parse must agree '
         'with them) are given to Earley/Dyn.dyn_parse as oracle tables; compared '
-        'inside Coq: item sets of every column and to_scan, the keys of delayed_matches after every scan, the outcome')
+        'inside Coq: item sets of every column and to_scan, the keys of delayed_matches after every scan, the outcome. '
+        'construct (seed independent) = EBNF-level source grammars (fixed corpus + random family with a fixed generator seed): '
+        'nested groups, groups whose distribution repeats a sibling alternative, repeated alternatives, duplicates through '
+        '? * + ~ [...], nullable/recursive/cyclic variants; construction terminates and succeeds or raises the documented '
+        'GrammarError exactly as an independent expander predicts; then all strings up to length 4 (thorough 5) against '
+        'the expander\'s flat rules')
 TRUSTED_BASE = ['hand model Earley/Alg.v of earley.Parser.predict_and_complete/scan/_parse/parse and Cfg/Analysis.v of '
                 'GrammarAnalyzer.expand_rule (tied by per-column item-set comparison and direct comparison of '
                 'Parser.predictions / NULLABLE)',
@@ -941,6 +946,88 @@ def run_dyn_coq(ctx, cases, meta):
     ctx.coq_cases_checked += sum(len(g[3]) for g in groups) - len(groups)
 
 
+# ---------------------------------------------------------------------------------------------
+# construct stream: EBNF-level source grammars; expectation (documented GrammarError or not) and language from the
+# independent expander props/ebnf_source_gen.py
+def check_source_grammar(ctx, rng, g, maxlen, origin):
+    from props import ebnf_source_gen as esg
+    gtext = esg.render(g)
+    exp = esg.Expander(g)
+    coll = exp.collisions()
+    expected = 'GrammarError' if coll else 'ok'
+    larks = {}
+    for lexer in LEXERS:
+        st, obj = build(gtext, lexer, 'forest')
+        ctx.count('construct:build', key=(gtext, lexer), nontrivial=True, construct=st, expected_construct=expected,
+                  origin=origin)
+        w = {'grammar': gtext, 'lexer': lexer, 'ambiguity': 'forest', 'mode': 'construct-source',
+             'expected_construct': expected, 'observed': '%s %s' % (st, str(obj)[:160] if st != 'ok' else '')}
+        if st == 'ok':
+            larks[lexer] = obj
+            if expected != 'ok':
+                ctx.violation('correspondence:documented-GrammarError',
+                              {'no_longer_checks': 'which grammars raise the documented GrammarError', **w}, False,
+                              'the expander predicts colliding optionals %s but the parser was constructed' % (coll[:2],))
+        elif st == 'GrammarError':
+            if expected == 'ok':
+                ctx.violation('construct', w, True,
+                              'constructing the parser for a well-formed grammar whose optional items do not collide '
+                              'raised GrammarError: %s' % obj)
+            elif 'Rules defined twice' not in str(obj):
+                ctx.violation('construct', w, True, 'GrammarError other than the documented one: %s' % obj)
+        else:
+            ctx.violation('construct', w, True, 'constructing the parser %s'
+                          % ('did not terminate within the timeout' if st == 'hang' else 'raised %s' % obj))
+    if expected != 'ok' or not larks:
+        return
+    rules = exp.bnf()
+    alphabet = esg.alphabet(g) or ['a']
+    level, texts = [''], ['']
+    for _ in range(maxlen):
+        level = [s + c for s in level for c in alphabet]
+        texts += level
+    hangs = 0
+    for text in texts:
+        tspans = {}
+        for k, ch in enumerate(text):
+            tspans.setdefault(ch, set()).add((k, k + 1))
+        want = member(rules, 'start', len(text), tspans)
+        for lexer, lk in larks.items():
+            status, pos, log = run_parse(lk, text)
+            if status == 'hang':
+                status, pos, log = run_parse(lk, text, timeout=30.0)
+            ctx.count('construct:language', key=(gtext, lexer, text), nontrivial=len(text) >= 2, lexer=lexer, outcome=status)
+            w = {'grammar': gtext, 'lexer': lexer, 'ambiguity': 'forest', 'text': text, 'mode': 'parse-source',
+                 'expected_accept': want, 'observed': status}
+            if status == 'hang':
+                ctx.violation('hang', w, True, 'parse did not terminate within the timeout')
+                ctx.extra['hangs'] = ctx.extra.get('hangs', 0) + 1
+                hangs += 1
+            elif status.startswith('other:') or status.startswith('UnexpectedInput:'):
+                ctx.violation('exception-class', w, True, 'parse raised %s' % status)
+            elif (status == 'accept') != want:
+                ctx.violation('language', w, True, '%s %r although the source grammar (groups distributed, operators '
+                              'expanded independently) %s it' % ('accepted' if status == 'accept' else 'rejected (%s)' % status,
+                                                                 text, 'derives' if want else 'does not derive'))
+        if hangs >= 2 or ctx.extra.get('hangs', 0) >= 8:
+            break
+
+
+def run_construct_stream(ctx, wide):
+    """seed independent: a fixed corpus and a random family drawn from a fixed generator seed"""
+    import random
+    from props import ebnf_source_gen as esg
+    rng = random.Random(20240923)
+    maxlen = ctx.scale(4, 5)
+    for g in esg.CORPUS:
+        check_source_grammar(ctx, rng, g, maxlen, 'corpus')
+    for _ in range(ctx.scale(45, 500) * wide):
+        check_source_grammar(ctx, rng, esg.gen_source_grammar(rng), maxlen, 'random')
+    ctx.sample({'stream': 'construct', 'grammar': esg.render(esg.CORPUS[0]),
+                'expander': [(n, [[str(x[1]) if x != esg.MARK else '<None>' for x in s] for s in seqs])
+                             for n, seqs in esg.Expander(esg.CORPUS[0]).flat.items()]})
+
+
 def correspond(ctx):
     patch_lark()
     rng = ctx.rng
@@ -969,6 +1056,7 @@ def correspond(ctx):
         check_grammar(ctx, rng, render(rng, names, chars, g), 'ignore', cases, meta, seen, n_exh // 2, n_extra,
                       ignore=True)
     run_text_streams(ctx, rng, wide)
+    run_construct_stream(ctx, wide)
     run_dyn_stream(ctx, rng, wide, cases, meta)
     ctx.extra['lark_seconds'] = round(time.time() - t0, 1)
     run_exotic(ctx)
@@ -988,6 +1076,10 @@ def replay(ctx, case):
         return False
     patch_lark()
     st, obj = build(w['grammar'], w.get('lexer', 'basic'), w.get('ambiguity'))
+    if w.get('mode') == 'construct-source':
+        if w.get('expected_construct') == 'ok':
+            return st != 'ok'
+        return st != 'ok' and not (st == 'GrammarError' and 'Rules defined twice' in str(obj))
     if w.get('mode') == 'construct':
         return st != 'ok' and not (st == 'GrammarError' and 'Rules defined twice' in str(obj))
     if st != 'ok':
